@@ -246,6 +246,9 @@ double CDF_Maxwell_Boltzmann(double x, double a)
 // 2. Likelihoods
 double Log_Likelihood_Poisson(double N_prediction, unsigned long int N_observed, double expected_background)
 {
+	// No observed events: the likelihood is exp(-(s+b)), also for s+b = 0 (0*log(0) would be nan, PMF_Poisson(0,0) is 1).
+	if(N_observed == 0)
+		return -(N_prediction + expected_background);
 	double log_N_obs_factorial = 0.0;
 	for(unsigned int j = 1; j <= N_observed; j++)
 		log_N_obs_factorial += log(j);
